@@ -305,6 +305,71 @@ def check_case(ctx, case, rng):
                 break
             v1 = vnew
             d0 = d1
+        # ... and a change made in place -- an element of an array member, a field of a nested structure or of a
+        # structure inside an array -- of a *parsed* instance (its members are still the objects the reader made):
+        # the dumped bytes are those of the values it holds now
+        import copy
+
+        cands = []
+        for n in names:
+            i, f = fmap[n]
+            t = f["t"]
+            if f.get("bits"):
+                continue
+            if t["k"] == "struct" and not t.get("union") and not gen.has_union(t):
+                cands.append((n, "struct"))
+            elif t["k"] == "array" and t["elem"]["k"] in ("int", "struct") and not gen.node_dynamic(t):
+                if t["elem"]["k"] == "int" or (not t["elem"].get("union") and not gen.has_union(t["elem"])):
+                    cands.append((n, "array"))
+        rng.shuffle(cands)
+        for n, how in cands[:2]:
+            if T.size is None or model.has_nan(v1):
+                break
+            i, f = fmap[n]
+            try:
+                obj = T(d0)
+                vnew = copy.deepcopy(v1)
+                holder_l, holder_m, node = getattr(obj, n), vnew[n], f["t"]
+                path = n
+                if how == "array":
+                    if not holder_m:
+                        continue
+                    j = rng.randrange(len(holder_m))
+                    path += f"[{j}]"
+                    if node["elem"]["k"] == "int":
+                        nv = model.random_value(node["elem"], rng, cfg)
+                        holder_l[j] = nv
+                        holder_m[j] = nv
+                        node = None
+                    else:
+                        holder_l, holder_m, node = holder_l[j], holder_m[j], node["elem"]
+                if node is not None:
+                    inner = [(k2, f2) for k2, f2 in enumerate(node["fields"])
+                             if f2["name"] not in (None, "_") and f2["name"] in holder_m and f2["t"]["k"] in ("int", "enum", "char", "float")]
+                    if not inner:
+                        continue
+                    k2, f2 = rng.choice(inner)
+                    nv = model.random_value(f2["t"], rng, cfg, f=f2)
+                    if isinstance(nv, float) and nv != nv:
+                        continue
+                    setattr(holder_l, f2["name"], lib.build(type(holder_l).__fields__[k2].type, f2["t"], nv, f2))
+                    holder_m[f2["name"]] = nv
+                    path += "." + f2["name"]
+                d1 = obj.dumps()
+                want, _ = model.dump(top, vnew, cfg)
+            except model.ModelUnsupported:
+                continue
+            except Exception as e:  # noqa: BLE001
+                viol("locality", f"in-place-change-or-dump-raises:{type(e).__name__}", field=n, error=lib.exc_sig(e))
+                break
+            ctx.evaluation(key + ("in-place", path, repr(nv)[:40]))
+            ctx.event("in_place_changes_of_parsed_instances")
+            ctx.cell("in-place-change-of-parsed-instance:" + how)
+            if d1 != want:
+                viol("locality", "in-place-change-of-a-nested-value-not-reflected-in-the-dumped-bytes", field=path,
+                     value=repr(nv), before=d0, after=d1, want=want)
+                break
+            v1, d0 = vnew, d1
 
 
 def run(ctx):
